@@ -23,6 +23,8 @@ import (
 	"sort"
 	"strconv"
 	"strings"
+	"sync"
+	"sync/atomic"
 )
 
 // Mode selects how Range orders the keys of a map.
@@ -115,6 +117,51 @@ type state struct {
 
 var st *state
 
+// Concurrent mode. The seam assumes that one goroutine at a time runs
+// instrumented code (bkl starts none). If simgen finds a go statement or an
+// import of package sync (or x/sync) in the tree it instruments, it adds an
+// init function calling MarkConcurrent: from then on the step counter is
+// atomic, the probes are updated under a lock, and the cooperative scheduler
+// never switches (a task parked while it holds a lock of the code under test,
+// or a hand-over requested by a goroutine the scheduler does not know, would
+// deadlock the simulation). Seeded map iteration keeps working; what the
+// goroutines of the code under test do among themselves is then not
+// schedule-controlled, and the evidence says so.
+var (
+	concurrent atomic.Bool
+	cmu        sync.Mutex
+	csteps     atomic.Int64 // steps of the current call, all goroutines
+	ctotal     atomic.Int64
+)
+
+// MarkConcurrent switches the runtime to concurrent mode (see above).
+func MarkConcurrent() { concurrent.Store(true) }
+
+// IsConcurrent reports whether the instrumented tree asked for concurrent mode.
+func IsConcurrent() bool { return concurrent.Load() }
+
+func (s *state) lock() {
+	if concurrent.Load() {
+		cmu.Lock()
+	}
+}
+
+func (s *state) unlock() {
+	if concurrent.Load() {
+		cmu.Unlock()
+	}
+}
+
+func (s *state) foldConcurrent() {
+	if !concurrent.Load() {
+		return
+	}
+	if n := csteps.Swap(0); n > s.probes.MaxSteps {
+		s.probes.MaxSteps = n
+	}
+	s.probes.Steps = ctotal.Load()
+}
+
 // Install installs a schedule for the solo task. budget <= 0 means unlimited.
 func Install(s Sched, budget int64) {
 	st = &state{sched: s, budget: budget, cur: &task{}}
@@ -133,6 +180,14 @@ func Snapshot() Probes {
 	if st == nil {
 		return Probes{}
 	}
+	st.lock()
+	defer st.unlock()
+	if concurrent.Load() {
+		if n := csteps.Load(); n > st.probes.MaxSteps {
+			st.probes.MaxSteps = n
+		}
+		st.probes.Steps = ctotal.Load()
+	}
 	p := st.probes
 	if st.cur != nil && st.cur.steps > p.MaxSteps {
 		p.MaxSteps = st.cur.steps
@@ -150,6 +205,7 @@ func ResetTask() {
 	if st == nil {
 		return
 	}
+	st.foldConcurrent()
 	if st.cur != nil && st.cur.steps > st.probes.MaxSteps {
 		st.probes.MaxSteps = st.cur.steps
 	}
@@ -162,6 +218,7 @@ func BeginCall() {
 	if st == nil || st.cur == nil {
 		return
 	}
+	st.foldConcurrent()
 	if st.cur.steps > st.probes.MaxSteps {
 		st.probes.MaxSteps = st.cur.steps
 	}
@@ -278,6 +335,7 @@ func Range[M ~map[K]V, K comparable, V any](site int, m M) iter.Seq2[K, V] {
 		}
 	}
 	return func(yield func(K, V) bool) {
+		s.lock()
 		t := s.cur
 		t.nrange++
 		n := t.nrange
@@ -286,6 +344,7 @@ func Range[M ~map[K]V, K comparable, V any](site int, m M) iter.Seq2[K, V] {
 		if len(m) >= 2 {
 			s.probes.RangesMulti++
 		}
+		s.unlock()
 		keys := make([]K, 0, len(m))
 		seen := make(map[K]struct{}, len(m))
 		for k := range m {
@@ -299,10 +358,14 @@ func Range[M ~map[K]V, K comparable, V any](site int, m M) iter.Seq2[K, V] {
 			pending = pending[1:]
 			v, ok := m[k]
 			if !ok {
+				s.lock()
 				s.probes.DeletedSkipped++
+				s.unlock()
 				continue
 			}
+			s.lock()
 			s.probes.Sig = hashStr(mix(s.probes.Sig, uint64(site)), keyStr(k))
+			s.unlock()
 			if !yield(k, v) {
 				return
 			}
@@ -320,18 +383,24 @@ func Range[M ~map[K]V, K comparable, V any](site int, m M) iter.Seq2[K, V] {
 			if len(fresh) == 0 {
 				continue
 			}
+			s.lock()
 			if !sawCreated {
 				sawCreated = true
 				s.probes.CreatedSeen++
 			}
+			s.unlock()
 			sort.Slice(fresh, func(i, j int) bool { return keyStr(fresh[i]) < keyStr(fresh[j]) })
 			for _, k2 := range fresh {
 				produce, h := s.coin(site, keyStr(k2), n)
 				if !produce {
+					s.lock()
 					s.probes.CreatedSkipped++
+					s.unlock()
 					continue
 				}
+				s.lock()
 				s.probes.CreatedProduced++
+				s.unlock()
 				pos := int(mix(h, 0x9051) % uint64(len(pending)+1))
 				pending = append(pending, k2)
 				copy(pending[pos+1:], pending[pos:])
@@ -394,6 +463,18 @@ func ValuesSlice[M ~map[K]V, K comparable, V any](site int, m M) []V {
 func Yield(site int) {
 	s := st
 	if s == nil {
+		return
+	}
+	if concurrent.Load() {
+		ctotal.Add(1)
+		if n := csteps.Add(1); s.budget > 0 && n > s.budget {
+			if s.exitOn {
+				Flush()
+				fmt.Fprintf(os.Stderr, "VERIF_SIM: step budget exceeded after %d steps\n", n)
+				os.Exit(97)
+			}
+			panic(BudgetExceeded{n})
+		}
 		return
 	}
 	t := s.cur
